@@ -374,6 +374,7 @@ class History(object):
         self.problems = []
         self.nevents = 0
         self.merges = []             # generations at which segments disappeared
+        self.nremoves = 0            # remove events of segment files so far
 
     def on_event(self, n, kind, name, detail=None):
         s = self.sched
@@ -388,6 +389,7 @@ class History(object):
         elif kind == "remove":
             m = SEGRE.match(b)
             if m:
+                self.nremoves += 1
                 self.removed.setdefault(m.group(1), n)
                 self.removed_files.setdefault(m.group(1), set()).add(m.group(2))
                 self.removed_file_n.setdefault(_plain(b), n)
@@ -452,9 +454,9 @@ class History(object):
             if tx["kind"] == "clear":
                 m = {}
             for op in tx["ops"]:
-                if op[0] == "del":
+                if op[0] in ("del", "deldoc"):
                     m.pop(op[1], None)
-                else:
+                else:           # add / upd / undel: the document (for undel: the content it had when it was deleted)
                     m[op[1]["id"]] = op[1]
         return m
 
@@ -472,6 +474,7 @@ class DocGen(object):
         self.nkey = 0
         self.nvals = list(range(1, 4000))
         rng.shuffle(self.nvals)
+        self.by_n = {}
 
     def doc(self, key=None):
         rng = self.rng
@@ -482,6 +485,7 @@ class DocGen(object):
         d["c"] = d["n"] % 5         # derived (no draw): the value of the column-only field, 5 groups
         if rng.random() < 0.5:
             d["k"] = " ".join(sorted(rng.sample(["red", "green", "blue"], rng.randint(1, 2))))
+        self.by_n[d["n"]] = d       # n is unique per document VERSION: identifies a physically present deleted document
         return d
 
 
@@ -509,12 +513,86 @@ def gen_tx(rng, docgen, live_keys, kind=None):
     return {"kind": kind, "ops": ops}
 
 
+# transactions that change the deletion SET of existing segments by document number (all committed with merge=False, so
+# that the segments keep their identity and a refresh() meets "same segment, other deletions"):
+#   undelete        writer.delete_document(docnum, delete=False) of a physically present deleted document
+#   swapdel         un-delete one document and delete another one OF THE SAME SEGMENT: its deletion COUNT stays equal
+#   swapdel-append  the same, and new documents are added (a new segment is appended, an old one changes deletions only)
+#   olddel-append   documents of the OLDEST segment are deleted by number while a new segment is appended
+SEG_TX_KINDS = ["undelete", "swapdel", "swapdel", "swapdel-append", "olddel-append"]
+
+
+def segment_view(w):
+    """[(segment id, [(writer-global docnum, key, n, deleted?)])] read through the public IndexWriter.reader()."""
+    out = []
+    r = w.reader()
+    try:
+        for lr, off in r.leaf_readers():
+            rows = []
+            for dn in range(lr.doc_count_all()):
+                sf = lr.stored_fields(dn)
+                rows.append((off + dn, sf.get("id"), sf.get("n"), bool(lr.is_deleted(dn))))
+            out.append((lr.segment().segment_id(), rows))
+    finally:
+        r.close()
+    return out
+
+
+def gen_seg_tx(rng, docgen, live_keys, view, kind):
+    """A transaction of one of SEG_TX_KINDS over the writer's segments (`view`); when the index has no suitable deleted
+    document yet it degrades to a deletion by number (kind 'deldoc-only'), which makes later swaps possible."""
+    live = set(live_keys)
+    ops = []
+    # rows that can be un-deleted: deleted, their key is not live (keys stay unique), their content is known
+    cands = []
+    for si, (sid, rows) in enumerate(view):
+        dead = [r for r in rows if r[3] and r[1] not in live and r[2] in docgen.by_n]
+        alive = [r for r in rows if not r[3] and r[1] in live]
+        cands.append((si, dead, alive))
+    if kind == "olddel-append":
+        for si, dead, alive in cands:
+            if alive:
+                for r in rng.sample(alive, min(len(alive), rng.randint(1, 2))):
+                    ops.append(("deldoc", r[1], r[0]))
+                break
+        for _ in range(rng.randint(1, 2)):
+            ops.append(("add", docgen.doc()))
+        return {"kind": kind, "ops": ops}
+    if kind == "undelete":
+        pool = [c for c in cands if c[1]]
+        if pool:
+            si, dead, alive = rng.choice(pool)
+            r = rng.choice(dead)
+            ops.append(("undel", docgen.by_n[r[2]], r[0]))
+            return {"kind": kind, "ops": ops, "segment": view[si][0]}
+    else:
+        pool = [c for c in cands if c[1] and c[2]]
+        if pool:
+            si, dead, alive = rng.choice(pool)
+            r1, r2 = rng.choice(dead), rng.choice(alive)
+            ops.append(("undel", docgen.by_n[r1[2]], r1[0]))
+            ops.append(("deldoc", r2[1], r2[0]))
+            if kind == "swapdel-append":
+                for _ in range(rng.randint(1, 2)):
+                    ops.append(("add", docgen.doc()))
+            return {"kind": kind, "ops": ops, "segment": view[si][0]}
+    pool = [r for c in cands for r in c[2]]
+    if pool:
+        r = rng.choice(pool)
+        ops.append(("deldoc", r[1], r[0]))
+    return {"kind": "deldoc-only", "ops": ops}
+
+
 def apply_tx(w, tx):
     for op in tx["ops"]:
         if op[0] == "add":
             w.add_document(**op[1])
         elif op[0] == "upd":
             w.update_document(**op[1])
+        elif op[0] == "undel":
+            w.delete_document(op[2], delete=False)
+        elif op[0] == "deldoc":
+            w.delete_document(op[2])
         else:
             w.delete_by_term("id", op[1])
 
@@ -524,7 +602,8 @@ def finish_tx(w, tx):
     kind = tx["kind"]
     if kind == "cancel":
         w.cancel()
-    elif kind in ("append", "delete-only", "update", "empty"):
+    elif kind in ("append", "delete-only", "update", "empty", "undelete", "swapdel", "swapdel-append",
+                  "olddel-append", "deldoc-only"):
         w.commit(merge=False)
     elif kind == "default":
         w.commit()
@@ -538,7 +617,7 @@ def finish_tx(w, tx):
 
 def slim_tx(tx):
     return {"kind": tx["kind"], "compound": tx.get("compound"),
-            "ops": [(op[0], op[1] if op[0] == "del" else op[1]["id"]) for op in tx["ops"]]}
+            "ops": [(op[0], op[1] if op[0] in ("del", "deldoc") else op[1]["id"]) + tuple(op[2:]) for op in tx["ops"]]}
 
 
 # ----------------------------------------------------------------------
@@ -566,7 +645,11 @@ def writer_thread(env, k):
             ctx.count("writer.lockerror")
             continue
         live = H.model(w.generation - 1)
-        tx = gen_tx(rng, env.docgen, live)
+        if rng.random() < 0.3:
+            # deletion-set changes by document number (un-delete, same-count swap, old segment only + appended segment)
+            tx = gen_seg_tx(rng, env.docgen, live, segment_view(w), rng.choice(SEG_TX_KINDS))
+        else:
+            tx = gen_tx(rng, env.docgen, live)
         tx["compound"] = bool(w.compound)
         env.txlog.append((k, j, slim_tx(tx)))
         ctx.count("tx.kind." + tx["kind"])
@@ -679,10 +762,19 @@ def open_searcher(env, rng, info, refresh_from=None):
         # LINE-level: this call's line events are counted; at 0..2 of them (uniform over the number of lines the last
         # such call of this schedule executed) the reader is parked for a transaction-long pause
         lrng = env.lines_rng
-        st = {"lines": 0, "park_at": set(), "park_steps": lrng.choice([30, 300, 800, 2500]), "parked": []}
-        est = env.open_lines_est["refresh" if refresh_from is not None else "open"]
+        st = {"lines": 0, "park_at": set(), "park_at_fn": set(), "per_fn": {},
+              "park_steps": lrng.choice([30, 300, 800, 2500]), "parked": []}
+        kind_ = "refresh" if refresh_from is not None else "open"
+        est = env.open_lines_est[kind_]
+        seen_fns = env.open_fn_seen[kind_]
         for _ in range(lrng.choice([0, 1, 1, 1, 2])):
-            st["park_at"].add(lrng.randint(1, max(2, est)))
+            if seen_fns and lrng.random() < 0.6:
+                # uniform over the FUNCTIONS the last such call went through, then over that function's line events
+                fn = lrng.choice(sorted(seen_fns))
+                st["park_at_fn"].add((fn, lrng.randint(1, seen_fns[fn])))
+            else:
+                # uniform over the line events of the whole call (weights loops, e.g. the directory listing)
+                st["park_at"].add(lrng.randint(1, max(2, est)))
         env.in_open[tid] = st
     try:
         if refresh_from is None:
@@ -735,6 +827,7 @@ def open_searcher(env, rng, info, refresh_from=None):
         ctx.count("lines.%s.line_events_inside" % what, st["lines"])
         if st["lines"]:
             env.open_lines_est[what] = st["lines"]
+            env.open_fn_seen[what] = st["per_fn"]
         if st["parked"]:
             ctx.count("lines.parked_inside_open", len(st["parked"]))
             for fn, _ in st["parked"]:
@@ -901,10 +994,17 @@ def reader_thread(env, k):
             env.stop = True
             break
         # ---- (iii)
-        with s.atomic():
+        if env.lines is not None and env.lines_rng.random() < 0.5:
+            # LINE-level schedules, half of the evaluations: up_to_date() runs with scheduling points between its lines.
+            # Generations only grow, so with lo / hi = latest generation read (atomically) just before / after the call:
+            # g < lo => a newer generation existed during the whole call => False; lo == hi == g => g was the latest
+            # during the whole call => True; otherwise a commit was published meanwhile and either answer is right
             try:
+                with s.atomic():
+                    lo = ix.latest_generation()
                 u = sr.up_to_date()
-                latest = ix.latest_generation()
+                with s.atomic():
+                    hi = ix.latest_generation()
             except Exception as e:  # noqa
                 from vf.core import whoosh_site
                 site, in_harness = whoosh_site(e)
@@ -913,13 +1013,38 @@ def reader_thread(env, k):
                 ctx.fail("up_to_date", "raises:%s@%s" % (type(e).__name__, site), w, traceback.format_exc()[-2000:])
                 env.stop = True
                 break
-        ctx.count("uptodate.evals")
-        ctx.count("uptodate.true" if u else "uptodate.false")
-        if bool(u) != (g == latest):
-            w.update({"up_to_date": u, "reader_generation": g, "latest_generation": latest})
-            ctx.fail("up_to_date", "says-%s-but-generation-%s-latest" % (bool(u), "is" if g == latest else "is-not"), w)
-            env.stop = True
-            break
+            ctx.count("uptodate.line_level_evals")
+            want = False if g < lo else (True if lo == hi == g else None)
+            if want is None:
+                ctx.count("uptodate.line_level_undecided")
+            else:
+                ctx.count("uptodate.line_level_decided_%s" % want)
+                if bool(u) != want:
+                    w.update({"up_to_date": u, "reader_generation": g, "latest_before_call": lo, "latest_after_call": hi})
+                    ctx.fail("up_to_date", "line-level:says-%s-but-generation-%s-latest" % (
+                        bool(u), "is" if want else "is-not"), w)
+                    env.stop = True
+                    break
+        else:
+            with s.atomic():
+                try:
+                    u = sr.up_to_date()
+                    latest = ix.latest_generation()
+                except Exception as e:  # noqa
+                    from vf.core import whoosh_site
+                    site, in_harness = whoosh_site(e)
+                    if in_harness:
+                        raise
+                    ctx.fail("up_to_date", "raises:%s@%s" % (type(e).__name__, site), w, traceback.format_exc()[-2000:])
+                    env.stop = True
+                    break
+            ctx.count("uptodate.evals")
+            ctx.count("uptodate.true" if u else "uptodate.false")
+            if bool(u) != (g == latest):
+                w.update({"up_to_date": u, "reader_generation": g, "latest_generation": latest})
+                ctx.fail("up_to_date", "says-%s-but-generation-%s-latest" % (bool(u), "is" if g == latest else "is-not"), w)
+                env.stop = True
+                break
         # ---- refresh or close
         act = rng.choice(["refresh", "refresh", "close", "keep"])
         if act == "close":
@@ -1005,19 +1130,20 @@ def reader_side_codes():
         (ws.Searcher, ["__init__", "refresh", "up_to_date", "close"]),
         (fs.Storage, ["open_index", "__iter__"]),
         (fs.OverlayStorage, ["__init__", "open_file", "file_exists", "file_length", "list", "close"]),
-        (fs.FileStorage, ["open_file", "_fpath", "list", "file_exists", "file_length"]),
+        (fs.FileStorage, ["open_file", "list", "file_exists", "file_length"]),
         (fs.RamStorage, ["open_file", "list", "file_exists", "file_length"]),
         (cp.CompoundStorage, ["__init__", "open_file", "range", "file_exists", "file_length", "close"]),
-        (cb.Segment, ["open_compound_file", "open_file", "make_filename", "is_compound", "segment_id"]),
+        (cb.Segment, ["open_compound_file", "open_file", "is_compound"]),
         (w3.W3Codec, ["terms_reader", "per_document_reader"]),
         (w3.W3PerDocReader, ["__init__", "close"]),
         (w3.W3TermsReader, ["__init__", "close"]),
     ]
     seen = {}
+    src = os.path.dirname(os.path.abspath(wi.__file__))
 
     def add_code(co):
-        if id(co) in seen:
-            return
+        if id(co) in seen or not os.path.abspath(co.co_filename).startswith(src):
+            return              # (never harness code: the tap replaces some RamStorage methods while it is installed)
         seen[id(co)] = co
         for c in co.co_consts:
             if isinstance(c, types.CodeType):
@@ -1030,6 +1156,16 @@ def reader_side_codes():
             if isinstance(o, types.FunctionType):
                 add_code(o.__code__)
     return list(seen.values())
+
+
+_CODES = []
+
+
+def reader_side_codes_cached():
+    """Computed once per process, BEFORE the first tap is installed (so that the real RamStorage methods are seen)."""
+    if not _CODES:
+        _CODES.extend(reader_side_codes())
+    return _CODES
 
 
 def make_reader_lines(S, sched, env, prob, seed, no_yield_when):
@@ -1051,7 +1187,8 @@ def make_reader_lines(S, sched, env, prob, seed, no_yield_when):
                 st["lines"] += 1
                 fn = code.co_qualname
                 env.lines_inside[fn] = env.lines_inside.get(fn, 0) + 1
-                if st["lines"] in st["park_at"]:
+                k = st["per_fn"][fn] = st["per_fn"].get(fn, 0) + 1
+                if st["lines"] in st["park_at"] or (fn, k) in st["park_at_fn"]:
                     st["parked"].append((fn, line))
                     s.pause(st["park_steps"])
                     return None
@@ -1064,7 +1201,7 @@ def make_reader_lines(S, sched, env, prob, seed, no_yield_when):
             return None
 
     ly = ReaderLines(sched, [], prob=prob, seed=seed, exclude=("__del__",), no_yield_when=no_yield_when)
-    ly.codes = [c for c in reader_side_codes() if c.co_name != "__del__"]
+    ly.codes = [c for c in reader_side_codes_cached() if c.co_name != "__del__"]
     return ly
 
 
@@ -1086,10 +1223,16 @@ def run_thread_case(ctx, idx, rng, lines=False):
     sseed = rng.randrange(1 << 30)
     wb = {"case": idx, "storage": storage, "layout": layout, "writers": nwriters, "readers": nreaders,
           "tx_per_writer": ntx, "policy": pol, "sched_seed": sseed}
+    line_prob = None
+    if lines:
+        line_prob = rng.choice([0.02, 0.1, 0.3, 0.6])
+        wb["kind"] = "threads+lines"
+        wb["line_yield_probability"] = line_prob
     ctx.count("schedules")
     ctx.count("storage.%s.schedules" % storage)
     ctx.count("popA.schedules" if layout == "compound" else "popB.schedules")
     ctx.count("policy." + pol["policy"])
+    reader_side_codes_cached()
     root = tempfile.mkdtemp(prefix="vf-c03-")
     tap = Tap(root=root if storage != "ram" else tempfile.gettempdir(), unbuffered=False, track=False,
               tap_ram=(storage == "ram"), keep_events=False)
@@ -1126,7 +1269,8 @@ def run_thread_case(ctx, idx, rng, lines=False):
             return
         g0 = ix.latest_generation()
         wb["prelude"] = prelude
-        s = S.Scheduler(sseed, max_steps=ctx.pick(200000, 400000), watchdog_s=90, stall_s=15, **pol)
+        s = S.Scheduler(sseed, max_steps=ctx.pick(200000, 400000) * (2 if lines else 1), watchdog_s=90, stall_s=15,
+                        **pol)
         H = History(s, tap, g0, model0)
         env = Env()
         env.ctx, env.H, env.sched, env.ix, env.tap, env.wb = ctx, H, s, ix, tap, wb
@@ -1138,6 +1282,14 @@ def run_thread_case(ctx, idx, rng, lines=False):
         wb["transactions"] = env.txlog
         env.modes_with_commit = set()
         env.tag = "%d:%d:%d" % (ctx.seed, idx, sseed)
+        env.lines = None
+        env.in_open, env.lines_inside, env.line_yields, env.lines_parked = {}, {}, {}, {}
+        env.lines_commit_inside = env.lines_removed_inside = 0
+        env.open_lines_est = {"open": 120, "refresh": 120}
+        env.open_fn_seen = {"open": {}, "refresh": {}}
+        env.lines_rng = random.Random("c03-lines:%s" % env.tag)
+        if lines:
+            env.lines = make_reader_lines(S, s, env, line_prob, sseed, tap._lock.locked)
         tap.on_event = H.on_event
         for k in range(nwriters):
             s.spawn("w%d" % k, writer_thread, env, k)
@@ -1160,12 +1312,30 @@ def run_thread_case(ctx, idx, rng, lines=False):
                 return _f(self_, name)
             RamStorage.file_exists, RamStorage.file_length = file_exists, file_length
         try:
+            if env.lines is not None:
+                env.lines.install()
             with S.WhooshPatches(s) as patches:
                 out = s.run()
         finally:
+            if env.lines is not None:
+                env.lines.uninstall()
             if ram_saved is not None:
                 RamStorage.file_exists, RamStorage.file_length = ram_saved
         tap.on_event = None
+        if env.lines is not None:
+            ctx.count("lines.schedules")
+            ctx.count("lines.events", env.lines.fired)
+            ctx.count("lines.yields", env.lines.yields)
+            for fn, c in env.line_yields.items():
+                ctx.count("lines.yields_in." + fn, c)
+            for fn, c in env.lines_inside.items():
+                ctx.count("lines.inside_open_events_in." + fn, c)
+            for fn, c in env.lines_parked.items():
+                ctx.count("lines.parked_in." + fn, c)
+            if env.lines_commit_inside:
+                ctx.count("lines.schedules_with_commit_completed_inside_open")
+            if env.lines_removed_inside:
+                ctx.count("lines.schedules_with_segment_files_removed_inside_open")
         ctx.count("sched.steps", out.steps)
         ctx.count("sched.switches", out.switches)
         ctx.count("sched.status." + out.status)
@@ -1191,6 +1361,8 @@ def run_thread_case(ctx, idx, rng, lines=False):
                                                       type(e).__name__, site), w, out.tracebacks[name])
         kinds = tuple(sorted(set(t[2]["kind"] for t in env.txlog)))
         shape = (storage, layout, nwriters, nreaders, kinds, pol["policy"], tuple(sorted(env.modes_with_commit)))
+        if lines:
+            shape = shape + ("lines",)
         nontrivial = bool(env.modes_with_commit)
         sample = None
         if nontrivial:
@@ -1448,6 +1620,8 @@ def run(ctx):
         k = idx // ctx.nshards
         if k % ctx.pick(50, 25) == 5:
             run_proc_case(ctx, idx, rng)
+        elif k % ctx.pick(4, 3) == 1:
+            run_thread_case(ctx, idx, rng, lines=True)
         else:
             run_thread_case(ctx, idx, rng)
     ctx.extra.pop("_hashes", None)
